@@ -25,6 +25,8 @@ pub enum Oracle {
     Intern,
     /// C20: readers may be cancelled by the concurrent writer
     Writer,
+    /// C24: all identities created concurrently are pairwise distinct and read back correctly
+    Distinct,
     /// C21: thread 0's handle is cancelled through its token by an extra thread
     LocalCancel,
     /// C14: cycles through non-recovering functions: a request ends in the least fixpoint, a cycle
@@ -337,7 +339,7 @@ fn scen_body(sc: &Scen) {
         let _ = world.apply_write(&prog, op);
         let _ = sess.apply(op);
     }
-    sess.db.cx_arc().take_log();
+    let setup_log = sess.db.cx_arc().take_log();
     let phases = if sc.phase2 { 2 } else { 1 };
     let mut nontrivial_counted = false;
     for phase in 0..phases {
@@ -358,7 +360,18 @@ fn scen_body(sc: &Scen) {
                 let db = sess.db.clone();
                 let ops = ops.clone();
                 shuttle::thread::spawn(move || {
-                    let outs: Vec<Out> = ops.iter().map(|op| request(&db, op)).collect();
+                    let mut db = db;
+                    let mut outs: Vec<Out> = Vec::new();
+                    for op in &ops {
+                        if matches!(op, Op::Reclone) {
+                            let fresh = db.clone();
+                            drop(db);
+                            db = fresh;
+                            outs.push(Out::Unit);
+                        } else {
+                            outs.push(request(&db, op));
+                        }
+                    }
                     drop(db);
                     outs
                 })
@@ -375,6 +388,33 @@ fn scen_body(sc: &Scen) {
             }
         }
         let log = sess.db.cx_arc().take_log();
+        if sc.oracle == Oracle::Distinct {
+            // every identity created in this phase (and by the sequential prefix) is distinct per
+            // kind of struct, and reads back the value it was created with
+            let mut seen: std::collections::BTreeMap<(u8, u64), (u8, u8)> = Default::default();
+            for r in setup_log.iter().chain(log.iter()) {
+                if let Rec::Made { variant, ident, f, id, th, .. } = r {
+                    if *variant == 9 && ident != f {
+                        viol(&format!("readback:{}", sc.name), format!("input {id} created with {ident} by thread {th} reads back {f}"));
+                        return;
+                    }
+                    if let Some((oth, oident)) = seen.insert((*variant, *id), (*th, *ident)) {
+                        // tracked structs are legitimately re-created with the same id by the same
+                        // creator; two different threads / values must never share an identity
+                        if *variant == 9 || oth != *th {
+                            viol(
+                                &format!("duplicate-identity:{}", sc.name),
+                                format!("identity {id} (kind {variant}) was handed out to thread {oth} (value {oident}) and to thread {th} (value {ident})"),
+                            );
+                            return;
+                        }
+                    }
+                }
+            }
+            bump("identities_created", seen.len() as u64);
+            let pages: std::collections::BTreeSet<u64> = seen.keys().filter(|k| k.0 == 9).map(|k| (k.1 & 0xFFFF_FFFF) >> 7).collect();
+            bump("input_pages_touched", pages.len() as u64);
+        }
         if std::env::var("MC_TRACE").is_ok() {
             eprintln!("== phase {phase}: outcomes {}", outs_class(&outs));
             for r in &log {
